@@ -372,8 +372,20 @@ ResolveSingle(p, view) ==
                THEN FailO(Failure("missing", n, 0, TRUE, n, Shallow(n, View(n))))
           ELSE Push(n, View(n))
 
-\* paramGroupedSlice.Build for group key k seen from scope view
-ResolveGroup(p, view) ==
+\* feeders of group k not yet called, as seen from scope view: nearest scope first, registration
+\* order inside a scope
+Uncalled(k, view) ==
+  LET path == Path(view) IN
+  FlattenSeq([j \in 1..Len(path) |-> SelectSeq(ProvsAt(path[j], k), LAMBDA n : n \notin called)])
+\* which uncalled feeder a hard group parameter may call next: strictly the first, freely any
+\* ("" stands for the choice when there is nothing to choose)
+FeederPicks(p, view) ==
+  IF p.m = "grp" /\ Uncalled(p.k, view) # <<>>
+  THEN (IF FreeOrder THEN ToSet(Uncalled(p.k, view)) ELSE {Uncalled(p.k, view)[1]})
+  ELSE {""}
+
+\* paramGroupedSlice.Build for group key k seen from scope view; pick = the feeder to call next
+ResolveGroup(p, view, pick) ==
   LET path     == Path(view)
       \* group decorators that still have to run, root first
       readyDs  == SelectSeq(Reverse(path),
@@ -391,15 +403,15 @@ ResolveGroup(p, view) ==
          ELSE Push(d, s)
   ELSE IF dgScopes # <<>> THEN Fill(DGrpAt(dgScopes[1], p.k))
   ELSE IF p.m = "grp" /\ feeders # <<>> THEN
-     LET n == feeders[1] IN
+     LET n == pick IN
      IF OnStack(n) THEN FailO(Failure("cycle", n, 0, FALSE, n, {}))
      ELSE IF Shallow(n, View(n)) # {}
           THEN FailO(Failure("missing", n, 0, TRUE, n, Shallow(n, View(n))))
      ELSE Push(n, View(n))
   ELSE Fill(FlattenSeq([j \in 1..Len(path) |-> MembersAt(path[j], p.k)]))
 
-Resolve(p, view) == IF p.m \in {"grp", "soft"} THEN ResolveGroup(p, view)
-                    ELSE ResolveSingle(p, view)
+Resolve(p, view, pick) == IF p.m \in {"grp", "soft"} THEN ResolveGroup(p, view, pick)
+                          ELSE ResolveSingle(p, view)
 
 Building == cur.active /\ fail = NoFail /\ stack # <<>> /\ Top.ph = "build" /\ Top.bd # DOMAIN Ps(Top.f)
 Ready    == cur.active /\ fail = NoFail /\ stack # <<>> /\ Top.ph = "build" /\ Top.bd = DOMAIN Ps(Top.f)
@@ -416,8 +428,8 @@ SetTop(fr) == [stack EXCEPT ![Len(stack)] = fr]
 
 Descend ==
   /\ Building
-  /\ \E j \in NextParams(Top) :
-     LET o == Resolve(Ps(Top.f)[j], Top.view) IN
+  /\ \E j \in NextParams(Top) : \E pick \in FeederPicks(Ps(Top.f)[j], Top.view) :
+     LET o == Resolve(Ps(Top.f)[j], Top.view, pick) IN
      CASE o.t = "fill" ->
             /\ stack' = SetTop([Top EXCEPT !.args[j] = o.a, !.bd = @ \cup {j}, !.cj = 0])
             /\ UNCHANGED fail
